@@ -160,6 +160,17 @@ func (g *Gen) callRulesPre(c *ssa.CallCommon, st *State, prefix string) []*CallR
 				continue
 			}
 		}
+		if r.With != "" {
+			found := false
+			for _, a := range c.Args {
+				if g.textOf(a) == r.With {
+					found = true
+				}
+			}
+			if !found {
+				continue
+			}
+		}
 		r.Matched++
 		matched = append(matched, r)
 		env := g.specEnv(st, g.entry)
@@ -584,6 +595,7 @@ func (g *Gen) applyContract(spec *FuncSpec, c *ssa.CallCommon, st *State) []Val 
 	sig := c.Signature()
 	// bind parameters
 	bind := map[string]Val{}
+	var copyBack []copyBackItem
 	var paramNames []string
 	var callee *ssa.Function
 	if callee = c.StaticCallee(); callee != nil {
@@ -623,11 +635,16 @@ func (g *Gen) applyContract(spec *FuncSpec, c *ssa.CallCommon, st *State) []Val 
 			if m, ok := g.materialize(ad, st); ok {
 				m.G = a.Type()
 				bind[paramNames[i]] = m
-			} else if ad.rk == rLocal || len(ad.path) > 0 {
-				// address of a local / field: pass as a pseudo-pointer; spec may only dereference it via *p
-				bind[paramNames[i]] = Val{T: "$addr", S: sPtr, G: a.Type()}
-				bind["$addr:"+paramNames[i]] = Val{}
-				_ = ad
+			} else if pt, ok := a.Type().Underlying().(*types.Pointer); ok {
+				// address of a local / field: copy the value into a temporary heap object, pass that,
+				// and copy it back after the call (sound: the callee sees an equal value at a fresh address)
+				cur := g.loadAddr(ad, st)
+				cur.G = pt.Elem()
+				id := g.newObj(st)
+				tmp := Val{T: fmt.Sprintf("(pobj %s)", id), S: sPtr, G: a.Type()}
+				g.storePtr(tmp, pt.Elem(), nil, cur, st)
+				bind[paramNames[i]] = tmp
+				copyBack = append(copyBack, copyBackItem{ad, tmp, pt.Elem()})
 			}
 			continue
 		}
@@ -638,9 +655,14 @@ func (g *Gen) applyContract(spec *FuncSpec, c *ssa.CallCommon, st *State) []Val 
 	env.vars = bind
 	env.calleePkg = g.W.pkgOf(spec.Pkg)
 	env.calleeFn = callee
+	var preAll []string
 	for _, cl := range spec.Requires {
-		g.oblige("call."+spec.Name+"."+cl.Label, "A", fmt.Sprintf("precondition of %s: %s", spec.Name, cl.Src), st.reach, env.evalBool(cl.E), false)
+		pt := env.evalBool(cl.E)
+		preAll = append(preAll, pt)
+		g.oblige("call."+spec.Name+"."+cl.Label, "A", fmt.Sprintf("precondition of %s: %s", spec.Name, cl.Src), st.reach, pt, false)
 	}
+	// the callee's postconditions are only available where its preconditions hold
+	preOK := g.defineRaw("pre", "Bool", sAnd(preAll...))
 	// havoc assigns
 	if !spec.HasAssigns {
 		if !spec.Pure {
@@ -678,13 +700,24 @@ func (g *Gen) applyContract(spec *FuncSpec, c *ssa.CallCommon, st *State) []Val 
 		if mentionsGhost(cl.E, spec) {
 			continue // clause over the callee's own ghost monitors: internal to the callee
 		}
-		g.assume(st.reach, post.evalBool(cl.E))
+		g.assume(st.reach, sImp(preOK, post.evalBool(cl.E)))
 	}
 	for _, cl := range spec.TrustedEnsures {
-		g.assume(st.reach, post.evalBool(cl.E))
+		g.assume(st.reach, sImp(preOK, post.evalBool(cl.E)))
 		g.note(fmt.Sprintf("TRUSTED postcondition of %s assumed at call sites (not checked against its body): %s", spec.Name, cl.Src))
 	}
+	for _, cb := range copyBack {
+		v := g.loadPtr(cb.tmp, cb.typ, nil, st)
+		v.T = g.define("cb", v.S, v.T)
+		g.storeAddr(cb.ad, v, st)
+	}
 	return res
+}
+
+type copyBackItem struct {
+	ad  *Addr
+	tmp Val
+	typ types.Type
 }
 
 func resultNames(sig *types.Signature) []string {
